@@ -24,12 +24,12 @@ type LockConfig struct {
 }
 
 type lockCtx struct {
-	r          *core.Run
-	shared     map[*types.Named]bool      // struct types reachable from the shared root by field types
-	lockers    map[*ssa.Function]string   // functions that Lock+defer Unlock a mutex field: -> "Type.field"
-	unlocked   map[*ssa.Function]bool     // reachable from entries without passing through a locker
-	locked     map[*ssa.Function]bool     // reachable from inside a locker (excluding the locker itself unless re-entered)
-	entries    []*ssa.Function
+	r        *core.Run
+	shared   map[*types.Named]bool    // struct types reachable from the shared root by field types
+	lockers  map[*ssa.Function]string // functions that Lock+defer Unlock a mutex field: -> "Type.field"
+	unlocked map[*ssa.Function]bool   // reachable from entries without passing through a locker
+	locked   map[*ssa.Function]bool   // reachable from inside a locker (excluding the locker itself unless re-entered)
+	entries  []*ssa.Function
 }
 
 func LockDiscipline(r *core.Run, cfg LockConfig) {
@@ -128,7 +128,6 @@ func LockDiscipline(r *core.Run, cfg LockConfig) {
 	}
 	r.Floor("R-LOCK/L1", 4, "map accesses on SchemaCache.packages and Package.Schemas, stores to RefSchema.To")
 }
-
 
 // collectShared walks field types from the root.
 func (c *lockCtx) collectShared(root *types.Named) {
